@@ -4,6 +4,6 @@ go 1.24.0
 
 require github.com/RoaringBitmap/roaring/v2 v2.0.0
 
-require github.com/bits-and-blooms/bitset v1.24.4 // indirect
+require github.com/bits-and-blooms/bitset v1.24.4
 
 replace github.com/RoaringBitmap/roaring/v2 => /repo
